@@ -252,6 +252,15 @@ func sampleOf(scn *Scenario, r *Run) any {
 	return map[string]any{"seed": scn.Seed, "profile": scn.Profile, "scenario": scn, "event_log": trace}
 }
 
+// writeProgress records what is about to run, so that the driver can replay it if the process dies.
+func writeProgress(path string, scn *Scenario, i int) {
+	if path == "" {
+		return
+	}
+	b, _ := json.Marshal(map[string]any{"seed": scn.Seed, "profile": scn.Profile, "i": i, "scenario": scn})
+	os.WriteFile(path, b, 0o644)
+}
+
 func exploreMode(t *testing.T, job *Job) {
 	out := newOut()
 	sigs := map[string]bool{}
@@ -268,10 +277,8 @@ func exploreMode(t *testing.T, job *Job) {
 		}
 		seed := mix(job.SeedBase, uint64(i))
 		prof := job.Profiles[i%len(job.Profiles)]
-		if job.Progress != "" {
-			os.WriteFile(job.Progress, []byte(fmt.Sprintf(`{"seed":%d,"profile":%q,"i":%d}`, seed, prof, i)), 0o644)
-		}
 		scn := Gen(prof, seed, job.Thorough)
+		writeProgress(job.Progress, scn, i)
 		r, jd := Exec(t, scn)
 		if r.Sim.Ambiguous > 0 {
 			out.Ambiguous += r.Sim.Ambiguous
